@@ -12,7 +12,7 @@ RULE = ('(a) gate correspondence on a harness plugin loaded into the live bot: g
         'NestedCommandsIrcProxy -> _callCommand run is compared event by event with the extracted model; checkCommandCapability, '
         'DefaultCapabilities.setValue sequences and ircdb.checkIgnored are compared on their own (incl. hostile names).  (b) live bot, worker '
         'processes: EVERY command of every loadable bundled plugin x 13 caller roles (owner, admin, channel-op, plain registered, unregistered, '
-        'ignored, and secure owner/admin/channel-op accounts addressed from a non-matching hostmask: identified there by password before `secure` was set, never identified, identified from a mask removed later; plus accounts holding only #chan,voice / #chan,halfop, over the channel-related commands; plus, for the commands whose body picks the required capability from its arguments (Channel voice/devoice), argument lists mixing the caller\'s own nick, other nicks, both and none; plus `config channel [<network>] #a,#b,... <name> <value>` with channel lists of which the caller is op of only some, both orders, `*` network, nested: per-channel registry values compared before/after) x addressing forms (prefix char, nick, private, nick at end) x wrappers (direct, plugin-qualified, '
+        'ignored, and secure owner/admin/channel-op accounts addressed from a non-matching hostmask: identified there by password before `secure` was set, never identified, identified from a mask removed later; plus accounts holding only #chan,voice / #chan,halfop, over the channel-related commands; plus, for the commands whose body picks the required capability from its arguments (Channel voice/devoice), argument lists mixing the caller\'s own nick, other nicks, both and none; plus `config channel [<network>] #a,#b,... <name> <value>` with channel lists of which the caller is op of only some, both orders, `*` network, nested: per-channel registry values compared before/after; plus histories: a command is scheduled, the caller is then ignored (ignore database / account flag / channel ignore / lobotomy), the event fires) x addressing forms (prefix char, nick, private, nick at end) x wrappers (direct, plugin-qualified, '
         'nested [..], piped, Alias, Aka, Scheduler fired with a patched clock) x default-capability settings (stock, default-deny, anti-capability '
         'of the command / of the plugin in the default set, in the channel, on the account): every command body is wrapped to log calls, '
         'ircdb.users/channels/ignores, the registry, irc.callbacks and world.ircs are snapshotted before/after; the model predicts the gate '
@@ -36,7 +36,15 @@ LEVEL_TEXT = ('Coq theorems over an executable Gallina model of the gate every c
               '(the former finding C01.a is repaired); ignored callers get no event; inventory lemmas by reflection over a table regenerated from all plugin sources.  Tie: regenerated '
               'tables + differential run of the extracted model on a harness plugin + live differential run over all commands of all loaded plugins.')
 LEVEL_NOTE = ('Trusted: Coq kernel, gen_tables.py, extraction + driver, harness.  The 60 plugin bodies are not modelled: in-body capability checks and plugin-registered '
-              'gating converters are covered by the live run only.  User lookup and ignore-list matching are inputs.')
+              'gating converters are covered by the live run only (except errorNoCapability, Channel._voice, Config.channel and the scheduled replay, which are modelled and pinned).  '
+              'User lookup and ignore-list matching are inputs.  NOT modelled / not explored (gap audit): (1) plugin effects that are not commands -- invalidCommand handlers and '
+              'doPrivmsg/regexp triggers -- are not gated by command anti-capabilities (e.g. MoobotFactoids `x is y` still writes with -moobotfactoids in the default set); the property '
+              'speaks of commands; (2) a PRIVMSG whose prefix is not nick!user@host (only a server or services can send one) is looked up as an ACCOUNT NAME by ircdb.users.getUser, so '
+              'prefix `owner` is the account named owner unless it is secure: recognition is C04\'s subject, C01 takes the lookup result as an input; (3) one network, one bot nick; '
+              'DisabledCommands, defaultPlugins resolution, MessageParser-triggered commands (they run with the trigger author\'s message) and scheduled events restored from the pickle '
+              'after a restart are outside the model and the generator; (4) irc.isChannel (network CHANTYPES) vs ircdb.isChannel (default CHANTYPES) disagreeing makes '
+              'makeChannelCapability assert: modelled as an exception = denial, not generated live; (5) non-ASCII capability arguments (str.lower) and callable capability arguments of gating '
+              'converters: pinned absent by the inventory; pre_command_callbacks: pinned unused.')
 TECHNIQUE = 'Coq proof (case analysis, induction over the prefix loop / converter list / setValue sequence, reflection over the inventory) + regenerated tables + extracted-model differential correspondence + live-bot differential run'
 EXPLANATION = 'C01: model of the capability gate; theorems in coq/C01/Props.v'
 
@@ -574,6 +582,29 @@ def unblank(B):
     B['blanked'] = False
 
 
+def apply_then(B, then, role):
+    """what may happen to a caller between scheduling a command and its firing"""
+    ircdb = B['ircdb']
+    nick = ROLES[role].split('!')[0]
+    if then == 'ignore-db':
+        ircdb.ignores.add('%s!*@*' % nick)
+    elif then == 'ignore-flag':
+        try:
+            u = ircdb.users.getUser(ROLES[role])
+            u.ignore = True
+            ircdb.users.setUser(u)
+        except KeyError:
+            ircdb.ignores.add('%s!*@*' % nick)
+    elif then == 'chan-ignore':
+        c = ircdb.channels.getChannel(CHAN)
+        c.addIgnore('%s!*@*' % nick)
+        ircdb.channels.setChannel(CHAN, c)
+    elif then == 'lobotomy':
+        c = ircdb.channels.getChannel(CHAN)
+        c.lobotomized = True
+        ircdb.channels.setChannel(CHAN, c)
+
+
 def restore(B):
     conf = B['conf']
     unblank(B)
@@ -663,7 +694,7 @@ def gate_names_of(g):
 def model_call_case(B, prefix, chan, cb_name, canon, command, gates, allow_extra=True):
     """wire case (op 1) for one _callCommand with only the gating converters in the spec"""
     method = [] if gates is None else [[[[0, g[:3]] for g in gates], False]]
-    return [1, [snapshot_wire(B, prefix), wire.opt(chan), cb_name.lower(), canon, command, False, method, nctext(B, chan)]]
+    return [1, [snapshot_wire(B, prefix), wire.opt(chan), B['callbacks'].canonicalName(cb_name), canon, command, False, method, nctext(B, chan)]]
 
 
 def nctext(B, chan):
@@ -870,15 +901,24 @@ def live_one(B, inv):
     pre = None
     outs = []
     B['stub'] = (plugin, cmd) if role in STUB_ROLES else None
+    schedfire = None
     if wrapper == 'sched':
         fire_scheduled(B)                 # flush whatever earlier commands left in the scheduler
         del LOG[:]
         outs0 = feed(B, role, form, text)
         sched_log = list(LOG)
         del LOG[:]
+        scheduled = any(e[0] == 'body' and e[1] == 'Scheduler' for e in sched_log)
+        if scheduled and inv.get('then'):
+            # history: the caller is ignored AFTER having scheduled the command, BEFORE it fires
+            apply_then(B, inv['then'], role)
+            ignored = bool(ircdb.checkIgnored(prefix, chan or ''))
+            schedfire = {'case': [True, ign_wire(B, prefix, chan or '')]}
         pre = snap_all(B)
         outs = fire_scheduled(B)
-        if not any(e[0] == 'body' and e[1] == 'Scheduler' for e in sched_log):
+        if schedfire is not None:
+            schedfire['impl'] = 1 if any(e[0] in ('call', 'body') for e in LOG) or outs else 0
+        if not scheduled:
             outs = outs0 + outs           # the scheduling itself was refused: its replies are the output
     else:
         pre = snap_all(B)
@@ -1024,7 +1064,12 @@ def live_one(B, inv):
                 impl_v = ['mode', [n for m in modes for n in m.args[2:]]]
             if impl_v is not None:
                 rec['voice'] = {'case': [dbwire, rchan, nick_args, caller_nick], 'impl': impl_v}
-    restore_needed = bool(ch) or setting != 'stock' or bool(bodies)
+    if schedfire is not None:
+        st['sched_then_ignored'] = st.get('sched_then_ignored', 0) + (1 if ignored else 0)
+        if rec is None:
+            rec = {'schedfire_only': True}
+        rec['schedfire'] = schedfire
+    restore_needed = bool(ch) or setting != 'stock' or bool(bodies) or bool(inv.get('then'))
     if restore_needed:
         restore(B)
     if [c.name() for c in irc.callbacks] != B['callbacks0']:
@@ -1075,6 +1120,16 @@ def plan(B, rng, mode, cmds, flt=None):
                 for form in ('char', 'priv', 'nick'):
                     invs.append({'op': 'live', 'role': role, 'form': form, 'wrapper': 'plugin' if mode == 'quick' else rng.choice(['plugin', 'direct', 'nested', 'sched']),
                                  'plugin': p, 'cmd': c, 'args': ('#test ' + a2).strip() if form == 'priv' else a2, 'setting': 'stock'})
+    # histories: schedule a command, get ignored, the event fires (finding C01.b: the scheduled replay skipped the ignore check)
+    for role in ('plain', 'chanop', 'voiced', 'admin', 'owner', 'unreg'):
+        for then in ('ignore-db', 'ignore-flag', 'chan-ignore', 'lobotomy'):
+            for (p, c, a) in (('Utilities', 'echo', 'scheduled hi'), ('Channel', 'voice', ''), ('Config', 'channel', '#test plugins.Channel.partMsg zz')):
+                if (p, c) in have0:
+                    for form in ('char', 'priv'):
+                        if form == 'priv' and then in ('chan-ignore', 'lobotomy'):
+                            continue
+                        invs.append({'op': 'live', 'role': role, 'form': form, 'wrapper': 'sched', 'plugin': p, 'cmd': c,
+                                     'args': a, 'setting': 'stock', 'then': then})
     # `config channel` with channel lists
     if CONFCHAN in have0:
         k = 0
@@ -1292,6 +1347,13 @@ def collect_live(ctx, procs):
     if len(ctx.samples) < 12 and recs:
         ctx.samples.append({'kind': 'live', 'input': recs[0]['inv']})
     # model: the full case and the gate-only case (method = None) to tell gate refusals from converter refusals
+    srecs = [r for r in recs if r.get('schedfire')]
+    for r, mo in zip(srecs, ctx.model([[9, r['schedfire']['case']] for r in srecs])):
+        if mo is not None and mo != r['schedfire']['impl']:
+            ctx.disagree(r['inv'], {0: 'dropped', 1: 'runs', 2: 'raises'}.get(mo, mo), {0: 'nothing happened', 1: 'ran / replied'}[r['schedfire']['impl']],
+                         'scheduled replay vs the ignore state at fire time')
+    ctx.notes.append('scheduled replays after an ignore compared with the model: %d' % len(srecs))
+    recs = [r for r in recs if not r.get('schedfire_only')]
     crecs = [r for r in recs if r.get('confchan')]
     for r, mo in zip(crecs, ctx.model([[8, r['confchan']['case']] for r in crecs])):
         if mo is None:
@@ -1328,7 +1390,7 @@ def collect_live(ctx, procs):
 
 # ---------------------------------------------------------------- gate correspondence on a harness plugin
 USER_POOL = ['owner', 'admin', 'trusted', 'vgate', '-vgate', 'vgate.c1', '-vgate.c1', '-c1', 'c2', '-vgate.sub', '-vgate.sub.d0', '-d0', 'foo', '-foo',
-             '#test,op', '#test,-c1', '#test,-vgate', '#test,c3', '#test,foo', '#test,-foo', '#other,op', '-v_x', 'V_X']
+             '#test,op', '#test,-c1', '#test,-vgate', '#test,c3', '#test,foo', '#test,-foo', '#other,op', '-v_x', 'V_X', '-vx', '-vx.e0']
 CHAN_POOL = ['-c1', 'c1', '-vgate', 'foo', '-foo', 'op', '-vgate.c2', '-d0', 'vgate.sub.d0']
 DEF_POOL = ['-owner', '-admin', '-trusted', '-vgate', '-c2', '-vgate.c3', 'foo', '-foo', '-vgate.sub', 'c1', 'vgate']
 GATE_CAPS = ['foo', 'Foo', 'admin', 'owner', 'trusted', 'op', 'bar']
@@ -1676,7 +1738,7 @@ def run_gate_cases(ctx, B):
         d = gate_oracle(B, inp, impl, outs)
         if d:
             ctx.fail(inp, d)
-        call = [snapshot_wire(B, H_CALLER), wire.opt(chan), plugin.lower(), canon, command, False, method, nctext(B, chan)]
+        call = [snapshot_wire(B, H_CALLER), wire.opt(chan), B['callbacks'].canonicalName(plugin), canon, command, False, method, nctext(B, chan)]
         if calls:
             call[4] = calls[0][2]
         wcases.append([4, [call[0], dsp_wire(B, where), call]])
@@ -1718,6 +1780,9 @@ def run_ccc_cases(ctx, B):
 
         def name(self):
             return self.n
+
+        def canonicalName(self):          # checkCommandCapability: plugin = cb.canonicalName()
+            return callbacks.canonicalName(self.n)
     names = ['c1', 'c2', 'vgate', 'vgate.c1', 'foo', 'owner', 'admin', 'd0', 'vgate.sub.d0'] * 3 + HOSTILE_NAMES
     cases = []
     for _ in range(ctx.n(500)):
@@ -1727,7 +1792,7 @@ def run_ccc_cases(ctx, B):
             cases.append((g, where, rng.choice(names), None))
         else:
             pl = rng.choice(['vgate', 'Vgate', 'V_x'])
-            lst = rng.choice([['vgate'], ['vgate', 'c1'], ['vgate', 'sub', 'd0'], ['other', 'c1'], [], ['v_x'], ['vgate', 'a b'], ['vgate', '']])
+            lst = rng.choice([['vgate'], ['vgate', 'c1'], ['vgate', 'sub', 'd0'], ['other', 'c1'], [], ['v_x'], ['vx'], ['vx', 'e0'], ['vgate', 'a b'], ['vgate', '']])
             cases.append((g, where, lst, pl))
     wc, impls = [], []
     for g, where, name, pl in cases:
@@ -1748,7 +1813,7 @@ def run_ccc_cases(ctx, B):
         if pl is None:
             wc.append([0, [db, wire.opt(chan), name]])
         else:
-            wc.append([5, [db, wire.opt(chan), pl.lower(), name]])
+            wc.append([5, [db, wire.opt(chan), callbacks.canonicalName(pl), name]])
         impls.append((inp, ir))
     for (inp, ir), mo in zip(impls, ctx.model(wc)):
         if mo is None:
